@@ -25,6 +25,8 @@ FUNCTIONS = [
     "magpylib._src.fields.field_BH_triangularmesh:lines_end_in_trimesh",
     "magpylib._src.fields.field_BH_triangularmesh:get_intersecting_triangles",
     "magpylib._src.fields.field_BH_triangularmesh:segments_intersect_facets",
+    "magpylib._src.fields.field_BH_triangularmesh:get_open_edges",
+    "magpylib._src.fields.field_BH_triangularmesh:get_disconnected_faces_subsets",
 ]
 BOUNDS = [
     "base meshes: regular-ish tetrahedron, sliver tetrahedron, triangular prism (8 faces), cube (12 faces), two disjoint tetrahedra with interleaved faces; "
@@ -37,11 +39,16 @@ BOUNDS = [
     "(b) B = A shifted by d along x, d in [-5,5], truth 0<|d|<4; touching configurations excluded by bands of 1e-5 "
     "(the code's point tolerance eps is 1e-6); face orders B-first, A-first, interleaved (thorough: + reversed interleaved, one flipped face)",
 ]
+BOUNDS.append(
+    "status cases: get_open_edges / get_disconnected_faces_subsets on faces = L[F0] with F0 from a committed list of topologies (closed / one or two faces deleted / "
+    "dangling fin / two parts / two parts sharing one vertex / triangle strip) in committed face orders, vertex numbers L_0..L_{V-1} symbolic pairwise distinct reals "
+    "(every permutation and every other injective numbering; at most 4 of them free in the order, the others increasing - stated cut on the number of paths); "
+    "truth (boundary edges, vertex-connected components) from a reference written in the harness on the base numbering")
 CUTS = ["self-intersection cases only: scipy.spatial.KDTree (compiled) is replaced by a stub that implements query_ball_point by its definition "
         "(|c_j - p_i| <= r, each comparison a solver-decided branch), so the search radius computed by the code is part of what is checked",
         "vertices.astype(float32) is the identity (real arithmetic)"]
 ASSUMPTIONS = ["real arithmetic", "the base meshes are closed and connected (status checks are not the subject here)"]
-NOT_DECIDED = ["check_open, check_disconnected (index combinatorics without a symbolic dimension)", "check_selfintersecting beyond the three committed two-part families (spike through the middle / next to a corner of a face; two equal tetrahedra shifted along x)",
+NOT_DECIDED = ["check_open / check_disconnected beyond the committed topologies of the status cases (the class-level caching of the status flags is covered by the concrete trace only)", "check_selfintersecting beyond the three committed two-part families (spike through the middle / next to a corner of a face; two equal tetrahedra shifted along x)",
                "vertex renumbering (the algorithm only sees vertices[faces])"]
 
 S_LO, S_HI = z3.RealVal("1/1000000000"), z3.RealVal(1000000000)
@@ -110,6 +117,12 @@ def cases(tier, seed):
     for slot in (0, 1, 2):
         out.append({"id": f"selfintersect-ridge-slot{slot}", "kind": "selfintersect", "geom": "ridge", "order": "Bfirst", "slot": slot, "flips": [], "weight": 9,
                     "budget": 700 if tier == "quick" else 3000})
+    for topo, (V0, F0, free, orders) in STATUS_TOPOS.items():
+        for oi, order in enumerate(orders):
+            if tier == "quick" and oi > 1:
+                continue
+            out.append({"id": f"status-{topo}-order{oi}", "kind": "status", "topo": topo, "order": list(order), "free": free if tier == "quick" else min(len(V0), free + 1),
+                        "weight": 3, "budget": 300 if tier == "quick" else 1500})
     for base in ("prism", "cube"):
         nf = len(BASES[base][1])
         orders = [list(range(nf)), list(range(nf))[::-1]]
@@ -323,6 +336,184 @@ def _replay_selfintersect(spec):
                           f"status_selfintersecting={got}, but the parts {'do' if truth else 'do not'} intersect")
 
 
+# ---------------------------------------------------------------------------- open / disconnected status (symbolic vertex numbering)
+def _strip(n):
+    return [(i, i + 1, i + 2) for i in range(n)]
+
+
+_T = list(TETRA[1])
+_T2 = list(TWO[1])
+_FIN_V = np.concatenate([TETRA[0], [[0.5, -1.0, 0.0]]])
+_BOW_V = np.concatenate([TETRA[0], TETRA[0][1:] * 0.5 + np.array([0.0, 0.0, 1.0])])  # second tetrahedron on top, sharing vertex 3 = (0,0,1)
+_BOW = _T + [tuple({0: 3, 1: 4, 2: 5, 3: 6}[i] for i in f) for f in _T]
+_STRIP_V = np.array([(i * 0.5, float(i % 2), 0.1 * i * i) for i in range(8)])
+# topology -> (vertex coordinates for the replay through the class, faces, free labels in the quick tier, face orders)
+STATUS_TOPOS = {
+    "tetra-closed": (TETRA[0], _T, 4, [range(4), (2, 0, 3, 1)]),
+    "tetra-minus1": (TETRA[0], [_T[0], _T[1], _T[3]], 4, [range(3), (2, 1, 0)]),
+    "tetra-fin": (_FIN_V, _T + [(0, 1, 4)], 3, [range(5), (4, 0, 1, 2, 3)]),
+    "prism-closed": (PRISM[0], list(PRISM[1]), 3, [range(8), (7, 3, 5, 1, 6, 2, 4, 0)]),
+    "prism-minus2": (PRISM[0], [f for i, f in enumerate(PRISM[1]) if i not in (0, 5)], 3, [range(6), (5, 2, 4, 0, 3, 1)]),
+    "two-tetra-closed": (TWO_V, _T2, 2, [range(8), (0, 4, 1, 5, 2, 6, 3, 7), (7, 3, 6, 2, 5, 1, 4, 0)]),
+    "two-tetra-minus1": (TWO_V, _T2[:6] + _T2[7:], 2, [range(7), (6, 0, 5, 1, 4, 2, 3)]),
+    "bowtie": (_BOW_V, _BOW, 2, [range(8), (0, 7, 1, 6, 2, 5, 3, 4)]),
+    # a strip whose faces are listed so that the region growing of the first part needs several sweeps over the remaining faces
+    "strip6": (_STRIP_V, _strip(6), 2, [(0, 5, 4, 3, 2, 1), (5, 0, 1, 2, 3, 4), (2, 5, 0, 4, 1, 3)]),
+    "strip3+strip2": (np.concatenate([_STRIP_V[:5], _STRIP_V[:4] + np.array([0.0, 5.0, 0.0])]), _strip(3) + [(5, 6, 7), (6, 7, 8)], 2,
+                      [(0, 3, 2, 4, 1), (4, 2, 0, 3, 1), (3, 0, 4, 2, 1)]),
+}
+
+
+def _status_truth(F):
+    """reference on the base numbering: boundary edges (used by exactly one face), edges not used exactly twice, vertex-connected components of the faces"""
+    cnt = {}
+    for f in F:
+        for a, b in ((f[0], f[1]), (f[1], f[2]), (f[0], f[2])):
+            e = frozenset((a, b))
+            cnt[e] = cnt.get(e, 0) + 1
+    boundary = {e for e, c in cnt.items() if c == 1}
+    not2 = {e for e, c in cnt.items() if c != 2}
+    parent = list(range(len(F)))
+
+    def find(i):
+        while parent[i] != i:
+            i = parent[i]
+        return i
+
+    for i in range(len(F)):
+        for j in range(i):
+            if set(F[i]) & set(F[j]):
+                parent[find(i)] = find(j)
+    comps = {}
+    for i in range(len(F)):
+        comps.setdefault(find(i), set()).add(frozenset(F[i]))
+    return boundary, not2, {frozenset(c) for c in comps.values()}
+
+
+def _status_faces(spec):
+    V0, F0, _, _ = STATUS_TOPOS[spec["topo"]]
+    return np.asarray(V0, dtype=float), [tuple(F0[i]) for i in spec["order"]]
+
+
+def _run_status(case, info):
+    from magpylib._src.fields import field_BH_triangularmesh as TM
+
+    class SL(S):  # a vertex number: hashable (constant hash), so that Python sets of numbers compare by the solver-decided ==
+        __slots__ = ()
+
+        def __hash__(self):
+            return 7
+
+    C = Case(case, info)
+    CTX.decide_timeout = 4000
+    V0, F = _status_faces(case)
+    nv = len(V0)
+    L = [SL(z3.Real(f"L_{i}")) for i in range(nv)]
+    base_of = {l.z.get_id(): i for i, l in enumerate(L)}
+    free = case["free"]
+    CTX.pre = [z3.Distinct(*[l.z for l in L])] + [L[i].z < L[i + 1].z for i in range(free, nv - 1)]
+    inputs = L
+    boundary, not2, comps = _status_truth(F)
+    rp = {"kind": "status", "topo": case["topo"], "order": case["order"]}
+
+    def faces_arr():
+        a = np.empty((len(F), 3), dtype=object)
+        for i, f in enumerate(F):
+            for j, v in enumerate(f):
+                a[i, j] = L[v]
+        return a.view(type(symarr("tmp", (1,))))
+
+    def back(x):
+        return base_of[x.z.get_id()]
+
+    def run():
+        try:
+            oe = TM.get_open_edges(faces_arr())
+            sub = TM.get_disconnected_faces_subsets(faces_arr())
+            return ({frozenset(back(x) for x in row) for row in np.asarray(oe)}, len(oe),
+                    [frozenset(frozenset(back(x) for x in row) for row in np.asarray(part)) for part in sub])
+        except Exception as e:  # noqa
+            return e
+
+    def on_path(p):
+        C.paths += 1
+        if p.status != "ok":
+            C.note_inconclusive(f"p{C.paths}", f"aborted: {p.out}")
+            return
+        if isinstance(p.out, Exception):
+            what = f"raised {type(p.out).__name__}: {p.out}"
+        else:
+            edges, n_edges, parts = p.out
+            what = None
+            if (n_edges > 0) != bool(boundary):
+                what = f"open edges reported: {n_edges}, boundary edges of the mesh: {len(boundary)}"
+            elif not (boundary <= edges <= not2) or n_edges != len(edges):
+                what = f"open edges {sorted(map(sorted, edges))} (rows: {n_edges}) vs boundary edges {sorted(map(sorted, boundary))}"
+            elif len(parts) != len(comps) or set(parts) != comps:
+                what = f"{len(parts)} parts with {sorted(len(q) for q in parts)} faces, mesh has {len(comps)} with {sorted(len(q) for q in comps)}"
+        if what is None:
+            C.obligations.append({"name": f"p{C.paths}.status", "status": "unsat", "witness": C.witness(p.pc),
+                                  "note": "on this path (an order of the symbolic vertex numbers) open edges and parts equal the reference"})
+            if len(C.samples) < 1:
+                C.samples.append({"case": case["id"], "what": f"get_open_edges / get_disconnected_faces_subsets on symbolically numbered faces: {len(boundary)} boundary edges, {len(comps)} part(s) on every feasible path"})
+            return
+        C.oblige(f"p{C.paths}.status[{what}]", p.pc, z3.BoolVal(True), inputs=inputs, key="C16|status|open-or-disconnected", nice=False,
+                 on_model=lambda env: {"key": "C16|status|open-or-disconnected", "replay": dict(rp, env=env)})
+
+    seeds = [{f"L_{i}": float(i) for i in range(nv)}, {f"L_{i}": float((i * 5 + 3) % 11 if i < free else 20 + i) for i in range(nv)}]
+    paths = explore(run, max_paths=130 if C.tier == "quick" else 800, on_path=on_path, seeds=seeds)
+    C.decisions += sum(len(p.decisions) for p in paths)
+    if explore.truncated:
+        C.note_inconclusive("path-budget", "path budget hit")
+    # the same mesh through the class (check_open / check_disconnected, status flags, data) with the identity numbering: real run, float64 / int arrays
+    C.concrete_trace(_replay_status, dict(rp, env=None), "C16|status|open-or-disconnected|concrete")
+    return C.result()
+
+
+def _replay_status(spec):
+    import warnings
+
+    import magpylib as m
+
+    V0, F = _status_faces(spec)
+    env = spec.get("env") or {}
+    vals = [float(env.get(f"L_{i}") if env.get(f"L_{i}") is not None else i) for i in range(len(V0))]
+    rank = {i: r for r, i in enumerate(sorted(range(len(V0)), key=lambda i: (vals[i], i)))}
+    V = np.zeros_like(V0)
+    for i, r in rank.items():
+        V[r] = V0[i]
+    faces = np.array([[rank[v] for v in f] for f in F], dtype=int)
+    boundary, not2, comps = _status_truth([tuple(f) for f in faces.tolist()])
+    msgs = []
+    with warnings.catch_warnings():
+        warnings.simplefilter("ignore")
+        try:
+            tm = m.magnet.TriangularMesh(vertices=V, faces=faces, polarization=(0, 0, 1), reorient_faces=False,
+                                         check_open="skip", check_disconnected="skip", check_selfintersecting="skip")
+            if tm.status_open is not None or tm.status_disconnected is not None:
+                msgs.append("status flags set although the checks were skipped")
+            got_dis = tm.check_disconnected(mode="ignore")
+            got_open = tm.check_open(mode="ignore")
+            if bool(got_open) != bool(boundary) or tm.status_open is not bool(got_open):
+                msgs.append(f"check_open -> {got_open} (status_open {tm.status_open}), mesh has {len(boundary)} boundary edges")
+            if bool(got_dis) != (len(comps) > 1) or tm.status_disconnected is not bool(got_dis):
+                msgs.append(f"check_disconnected -> {got_dis} (status_disconnected {tm.status_disconnected}), mesh has {len(comps)} part(s)")
+            edges = {frozenset(int(x) for x in e) for e in np.asarray(tm.status_open_data)}
+            if not boundary <= edges <= not2:
+                msgs.append(f"status_open_data {sorted(map(sorted, edges))} vs boundary edges {sorted(map(sorted, boundary))}")
+            parts = {frozenset(frozenset(int(x) for x in f) for f in np.asarray(q)) for q in tm.status_disconnected_data}
+            if parts != comps:
+                msgs.append(f"status_disconnected_data has {len(parts)} parts, mesh has {len(comps)}")
+            # a second object built with the checks on must agree (flags computed in the constructor)
+            tm2 = m.magnet.TriangularMesh(vertices=V, faces=faces, polarization=(0, 0, 1), reorient_faces=False,
+                                          check_open="ignore", check_disconnected="ignore", check_selfintersecting="skip")
+            if bool(tm2.status_open) != bool(boundary) or bool(tm2.status_disconnected) != (len(comps) > 1):
+                msgs.append(f"constructor: status_open {tm2.status_open}, status_disconnected {tm2.status_disconnected}")
+        except Exception as e:  # noqa
+            return True, f"TriangularMesh status checks raised {type(e).__name__}: {e}"
+    return bool(msgs), f"topology {spec['topo']} face order {list(spec['order'])} vertex numbering {faces.tolist()}: " + ("; ".join(msgs) or "status checks agree with the reference")
+
+
 def _faces(case):
     V0, F = BASES[case["base"]]
     faces = [list(F[i]) for i in case["order"]]
@@ -336,6 +527,8 @@ def run_case(case, info):
 
     if case.get("kind") == "selfintersect":
         return _run_selfintersect(case, info)
+    if case.get("kind") == "status":
+        return _run_status(case, info)
     C = Case(case, info)
     CTX.decide_timeout = 2000  # `unknown` feasibility is treated as feasible anyway; the ray-cast conditions are sqrt-heavy
     # bounding-box min / max over s*v_i + t: the order of the vertices is implied by s > 0, so the if-then-else towers collapse to one branch
@@ -390,6 +583,8 @@ def replay(spec):
 
     if spec.get("kind") == "selfintersect":
         return _replay_selfintersect(spec)
+    if spec.get("kind") == "status":
+        return _replay_status(spec)
     V0, faces = _faces(spec)
     env = spec.get("env") or {}
     s = float(env.get("s") or 1.0)
